@@ -149,9 +149,13 @@ def build_lean(full=False):
         if p.returncode != 0:
             raise BuildError('lake build yaep_model', p.stdout[-6000:])
         return exe
-    p = subprocess.run(['lake', 'build'], cwd=LEAN, stdout=subprocess.PIPE, stderr=subprocess.STDOUT, text=True)
+    # full = True: the whole library; full = [modules]: the judges and these Props modules with
+    # everything they import (a proof obligation that breaks in a module a property does not rest
+    # on must not alarm that property)
+    targets = [] if full is True else ['yaep_model', 'containers_model'] + ['Yaep.Props.' + m for m in full]
+    p = subprocess.run(['lake', 'build'] + targets, cwd=LEAN, stdout=subprocess.PIPE, stderr=subprocess.STDOUT, text=True)
     if p.returncode != 0:
-        raise BuildError('lake build', p.stdout[-6000:])
+        raise BuildError('lake build ' + ' '.join(targets), p.stdout[-6000:])
     return exe
 
 
